@@ -450,7 +450,7 @@ class Frame:
         _, name, subs, fields = e
         c = self.cell_for(name)
         if isinstance(c, AliasCell) and not subs and not fields:
-            return c.ref
+            return c.ref if c.view is None else Ref(c, 0)
         if subs:
             idx = c.index([self.ev(s) for s in subs])
         else:
@@ -1008,20 +1008,34 @@ class AliasCell(Cell):
         self.base = 0
         self.fields = None
         self.ref = ref
+        # a string parameter is a view of the caller's storage with the callee's *declared* length:
+        # the callee neither sees nor writes more than that many bytes
+        self.view = None
+        if typ[0] == "STRING":
+            mine, theirs = (typ[1] or 32), (ref.cell.typ[1] or 32)
+            if mine < theirs:
+                self.view = mine
+                self.typ = ("STRING", mine)
 
     @property
     def data(self):
-        return _AliasData(self.ref)
+        return _AliasData(self.ref, self.view)
 
 
 class _AliasData:
-    def __init__(self, ref):
+    def __init__(self, ref, view=None):
         self.ref = ref
+        self.view = view
 
     def __getitem__(self, i):
-        return self.ref.get()
+        v = self.ref.get()
+        if self.view is not None and isinstance(v, str):
+            return v[: self.view]
+        return v
 
     def __setitem__(self, i, v):
+        if self.view is not None and isinstance(v, str):
+            v = v[: self.view]
         self.ref.cell.data[self.ref.idx] = v
 
 
